@@ -138,11 +138,12 @@ Fixpoint dec_msgs (k : nat) (n : Z) (b : list Z) : dres (list (list Z)) :=
   | O => Err EEOF
   | S k' => do (m, b1) <- dec_msg b; do (l, b2) <- dec_msgs k' (n - 1) b1; Ok (m :: l, b2)
   end.
-(* proto.MessageContainer.Decode: id, n:int (a negative n decodes no message), n messages *)
+(* proto.MessageContainer.Decode: id, n:int (negative: InvalidLengthError, since repo commit
+   8e2c2ab76), n messages *)
 Definition dec_container (b : list Z) : dres (list (list Z)) :=
   do b1 <- consume_id c_MessageContainerTypeID b;
   do (n, b2) <- decode_int b1;
-  dec_msgs (S (length b2)) n b2.
+  if n <? 0 then Err EInvalidLength else dec_msgs (S (length b2)) n b2.
 
 Section Handle.
   Variable gunzip : list Z -> option (list Z).
